@@ -1,7 +1,7 @@
 """Which proof units decide which property, evidence constants (DESIGN §5, §6)."""
 import re
 
-PROOF = {'C01', 'C02', 'C03', 'C04', 'C05', 'C06', 'C07', 'C08', 'C09', 'C14', 'C15', 'C16', 'C17', 'C18', 'C19'}
+PROOF = {'C01', 'C02', 'C03', 'C04', 'C05', 'C06', 'C07', 'C08', 'C09', 'C10', 'C14', 'C15', 'C16', 'C17', 'C18', 'C19'}
 
 
 # a property about one class family is served by that family's units (shared aliases tag more)
